@@ -190,6 +190,8 @@ def _agree(c, io, mo, ctx):
         return None if big >= 10 ** 250 else \
             "impl raised OverflowError although every exact magnitude stays below 1e250 (F, M <= %.3g): model=%s" % (
                 float(big), {k: v for k, v in mo.items() if k in ("err", "v")})
+    if io.get("err") == "other" and "err" not in mo and "D" in mo and 0 < qparse(mo["D"]) <= Fraction(1, 10 ** 250):
+        return None  # ZeroDivisionError: the exact matched divisor is not 0 but underflows to 0.0 in floats
     if "err" in io or "err" in mo:
         if ("err" in io) != ("err" in mo):
             return "one side fails: impl=%s model=%s" % (io, mo)
@@ -546,7 +548,10 @@ def grow_pool(uni, rng, max_depth, per_level, ops=("*", "/")):
                 a, b = b, a
             r = rng.random()
             if r < 0.12:
-                cur.append(["^", a, rng.choice([2, 2, 3])])
+                n = rng.choice([2, 2, 3])
+                if a[0] == "L" and abs(fval(a[1])) <= 100.0:
+                    n = rng.choice([2, 3, 4, 5, 6, 7])  # higher powers where the magnitude allows
+                cur.append(["^", a, n])
             else:
                 cur.append([rng.choice(ops), a, b])
         levels.append(cur)
